@@ -177,7 +177,11 @@ func newConcWorld(nconn int) (*concWorld, bool) {
 	w := &concWorld{fs: concTree()}
 	w.srv = p9.NewServer(w.fs)
 	for i := 0; i < nconn; i++ {
-		s, vr := newSess(w.srv, 1<<16, v7)
+		// pipes only: these worlds decide "blocked inside p9" thousands of times,
+		// and a picture with goroutines parked on the kernel takes a dozen
+		// polling rounds longer to call (package quiesce); the transports are
+		// not what the matrix is about
+		s, vr := newSessOn(w.srv, 1<<16, v7, nil)
 		if !vr.OK || s.attach(0, "").Errno() != 0 {
 			return w, false
 		}
